@@ -24,6 +24,8 @@ pub enum Path {
     SzxZlib,
     /// ROM LD-BYTES call served by the fast loader, destination 0x4000
     TapeFastLoad,
+    /// the same with destination 0xC000 and this bank paged there (128K; bank 5 or 7)
+    TapeFastLoadC000(u8),
 }
 
 #[derive(Clone, Debug, Serialize, Deserialize)]
@@ -38,6 +40,11 @@ pub struct Case {
     /// locks the latch; later writes must not change which bank is displayed)
     #[serde(default)]
     pub paging_writes: Vec<u8>,
+    /// 48K: after the judged frames the host takes a SNA snapshot with SP = 0x4000 + this offset
+    /// (the format parks PC in the two bytes below SP, inside the display file); the memory is as
+    /// before afterwards, so the picture must be too
+    #[serde(default)]
+    pub save_with_sp_in_screen: Option<u16>,
 }
 
 pub fn content(kind: u8, seed: u64) -> Vec<u8> {
@@ -249,10 +256,14 @@ fn deliver(e: &mut Emu, mm: &mut MemModel, c: &Case, bytes: &[u8]) -> Result<u8,
             res.map_err(|x| format!("load_snapshot failed: {:?}", x))?;
             Ok(vb as u8)
         }
-        Path::TapeFastLoad => {
-            // LD-BYTES (0x0556) with IX = 0x4000, DE = 6912, A = 0xFF, carry set, called from RAM
+        Path::TapeFastLoad | Path::TapeFastLoadC000(_) => {
+            // LD-BYTES (0x0556) with IX = 0x4000 (0xC000), DE = 6912, A = 0xFF, carry set, called from RAM
+            let (dest, bank_bits, bank) = match c.path {
+                Path::TapeFastLoadC000(b) if machine == Machine::K128 => (0xC000u16, b & 7, b & 7),
+                _ => (0x4000u16, 0, visible_bank(machine, false)),
+            };
             if machine == Machine::K128 {
-                let latch = latch_shadow | 0x10; // ROM 1 = 48K BASIC ROM
+                let latch = latch_shadow | 0x10 | bank_bits; // ROM 1 = 48K BASIC ROM
                 e.verif_set_paging(latch);
                 mm.latch = latch;
             }
@@ -261,7 +272,7 @@ fn deliver(e: &mut Emu, mm: &mut MemModel, c: &Case, bytes: &[u8]) -> Result<u8,
             e.set_fast_load(true);
             mach::poke_bytes(e, mm, LOOP, &[0xF3, 0x18, 0xFE]);
             mach::poke_bytes(e, mm, 0x8010, &[0xCD, 0x56, 0x05, 0xF3, 0x18, 0xFE]);
-            let r = RegFile { pc: 0x8010, sp: 0xBF00, ix: 0x4000, de: 6912, af: 0xFF01, iy: 0x5C3A, im: 1, ..Default::default() };
+            let r = RegFile { pc: 0x8010, sp: 0xBF00, ix: dest, de: 6912, af: 0xFF01, iy: 0x5C3A, im: 1, ..Default::default() };
             mach::set_regs(e, &r);
             if mach::run_to(e, &[0x8013], 300)?.is_none() {
                 return Err("LD-BYTES did not return within 300 frames with fast load enabled".into());
@@ -270,7 +281,7 @@ fn deliver(e: &mut Emu, mm: &mut MemModel, c: &Case, bytes: &[u8]) -> Result<u8,
             if f != 1 {
                 return Err("fast load of a correct block did not report success".into());
             }
-            Ok(visible_bank(machine, false))
+            Ok(bank)
         }
     }
 }
@@ -403,6 +414,31 @@ pub fn check(c: &Case, rec: &mut Rec) -> Result<(), String> {
                 ));
             }
             rec.class(if model.locked { "paging-writes-after-delivery:locked" } else { "paging-writes-after-delivery:unlocked" });
+        }
+    }
+    if machine == Machine::K48 {
+        if let Some(off) = c.save_with_sp_in_screen {
+            let sp = 0x4002 + off % 6900;
+            mach::poke_bytes(&mut e, &mut mm, LOOP, &[0xF3, 0x18, 0xFE]);
+            mach::set_regs(&mut e, &RegFile { pc: LOOP, sp, ..Default::default() });
+            let mem_before: Vec<u8> = e.verif_ram_page(0)[..6912].to_vec();
+            let mut file = Vec::new();
+            e.save_snapshot(rustzx_core::host::SnapshotRecorder::Sna(crate::props::c13::VecRecorder(&mut file))).map_err(|x| format!("save_snapshot: {:?}", x))?;
+            if e.verif_ram_page(0)[..6912] != mem_before[..] {
+                return Err("save_snapshot changed the display file (C13's business; stopping here)".into());
+            }
+            mach::run_frames(&mut e, 2)?;
+            rec.eval();
+            let (s0, s1) = (decode(&mem_before, false), decode(&mem_before, true));
+            let px = &e.screen_buffer().px;
+            if px[..] != s0[..] && px[..] != s1[..] {
+                let pos = px.iter().zip(s0.iter()).position(|(a, b)| a != b).unwrap();
+                return Err(format!(
+                    "path {:?}: after save_snapshot with SP = {:#06x} (inside the display file) the screen memory is what it was, but canvas pixel ({}, {}) shows {:#04x} where its decode gives {:#04x}",
+                    c.path, sp, pos % 256, pos / 256, px[pos], s0[pos]
+                ));
+            }
+            rec.class("snapshot-saved-with-sp-in-the-display-file");
         }
     }
     let distinct = {
@@ -540,6 +576,7 @@ pub fn case_strategy() -> impl Strategy<Value = Case> {
             Just(Path::SzxStored),
             Just(Path::SzxZlib),
             Just(Path::TapeFastLoad),
+            prop_oneof![Just(Path::TapeFastLoadC000(5)), Just(Path::TapeFastLoadC000(7))],
         ],
         0u8..5,
         any::<u64>(),
@@ -550,13 +587,15 @@ pub fn case_strategy() -> impl Strategy<Value = Case> {
         ],
     )
         .prop_map(|(machine, shadow, path, kind, seed, frames, paging_writes)| {
+            let save_with_sp_in_screen = if machine == Machine::K48 && seed % 3 == 0 { Some((seed >> 8) as u16) } else { None };
             let path = match (machine, path) {
                 (Machine::K48, Path::LdirC000(_)) => Path::Ldir4000,
                 (Machine::K48, Path::PokeC000(_)) => Path::Poke,
+                (Machine::K48, Path::TapeFastLoadC000(_)) => Path::TapeFastLoad,
                 (_, p) => p,
             };
             let paging_writes = if machine == Machine::K128 { paging_writes } else { Vec::new() };
-            Case { machine, shadow: shadow && machine == Machine::K128, path, kind, seed, frames, paging_writes }
+            Case { machine, shadow: shadow && machine == Machine::K128, path, kind, seed, frames, paging_writes, save_with_sp_in_screen }
         })
 }
 
@@ -588,7 +627,7 @@ pub fn replay(run: &mut Run, phase: &str, case: &serde_json::Value) -> Result<()
 }
 
 pub const LEVEL: &str = "exploration";
-pub const RULE: &str = "paths: 6912-byte screen contents (uniform; single bits with every attribute value; per-third address-bit patterns; BRIGHT+FLASH everywhere; sparse) delivered by one of {CPU LDIR through 0x4000, CPU LDIR through 0xC000 with bank 5/7 paged, execute_poke through 0x4000 or through 0xC000 with bank 5/7 paged, SCR load, SNA load, SZX load with stored or zlib pages, ROM LD-BYTES served by fast load} on 48K/128K with either 128K screen bank displayed, after different content had been on screen; then 1..40 frames with the CPU in DI;JR $ — every delivered canvas must equal the independent standard decode of the bank the ULA displays, with one FLASH phase per frame that toggles in runs of exactly 16 frames; on the 128K the other screen bank is then shown by flipping the screen-select bit, and after a generated history of 1..4 real paging-port writes (lock values included) the bank selected by the last accepted write must be displayed. beam-relative: one byte written by LD (HL),A (through 0x4000, or on the 128K through 0xC000 into the displayed bank 7) at a chosen T >= 64 T before (after) the ULA reaches it must (must not) appear in the frame in progress and must appear in the next. non-trivial = content with >= 64 distinct byte values delivered by a path other than plain LDIR through 0x4000 (beam phase: every case); distinct = hash of the case";
+pub const RULE: &str = "paths: 6912-byte screen contents (uniform; single bits with every attribute value; per-third address-bit patterns; BRIGHT+FLASH everywhere; sparse) delivered by one of {CPU LDIR through 0x4000, CPU LDIR through 0xC000 with bank 5/7 paged, execute_poke through 0x4000 or through 0xC000 with bank 5/7 paged, SCR load, SNA load, SZX load with stored or zlib pages, ROM LD-BYTES served by fast load to 0x4000 or to 0xC000 with bank 5/7 paged} on 48K/128K with either 128K screen bank displayed, after different content had been on screen; then 1..40 frames with the CPU in DI;JR $ — every delivered canvas must equal the independent standard decode of the bank the ULA displays, with one FLASH phase per frame that toggles in runs of exactly 16 frames; on the 128K the other screen bank is then shown by flipping the screen-select bit, and after a generated history of 1..4 real paging-port writes (lock values included) the bank selected by the last accepted write must be displayed; on the 48K a SNA snapshot taken with SP inside the display file (the format parks PC below SP and restores the bytes) must leave the picture as it was. beam-relative: one byte written by LD (HL),A (through 0x4000, or on the 128K through 0xC000 into the displayed bank 7) at a chosen T >= 64 T before (after) the ULA reaches it must (must not) appear in the frame in progress and must appear in the next. non-trivial = content with >= 64 distinct byte values delivered by a path other than plain LDIR through 0x4000 (beam phase: every case); distinct = hash of the case";
 pub const ASSUMPTIONS: &[&str] = &[
     "decoder is written from the formula in the property; canvas read from the harness FrameBuffer after each completed frame",
     "ULA reaches byte (line y, column c) at T = first-pixel T + y * line length + 4c; only writes at least 64 T away are judged",
